@@ -192,6 +192,28 @@ def main():
                                  rng.choice([("<",), (">",), ("<", ">")]), with_props=rng.random() < 0.5,
                                  type_change_at=tc)
         check_stream(run, segs, err, "sampled_3ch", cases, meta, want_lazy=rng.random() < 0.3)
+    # (c') the forbidden "channel changes data type" encoding in EVERY position of a 3-segment x 2-channel stream:
+    # for every encoding of the stream in which some channel is restated in full in segment 2 or 3 after having been
+    # defined, the restated index gets another data type - in new-object-list segments and in incremental ones,
+    # for listed, carried-over and dropped-then-relisted objects alike
+    opts_f2, opts_l2 = seg_options(2, True), seg_options(2, False)
+    grid = [(a, b, c) for a in opts_f2 for b in opts_l2 for c in opts_l2]
+    rng2 = random.Random(run.seed + 17)
+    rng2.shuffle(grid)
+    done = 0
+    for choice in grid:
+        if done >= run.pick(260, 4000):
+            break
+        cands = [(si, ci) for si in (1, 2) for ci in range(2)
+                 if choice[si][0] == "meta" and choice[si][2][ci] == "full"]
+        if not cands:
+            continue
+        tc = rng2.choice(cands)
+        segs, err = build_stream(list(choice), 2, (1, 1, 2), ("<",), with_props=False, type_change_at=tc)
+        if err is None:
+            continue                       # the channel had no earlier index: not a type change
+        check_stream(run, segs, err, "type_change_grid", cases, meta, want_lazy=False)
+        done += 1
     # (d) random longer streams from the general generator (property updates, strings, all types)
     for _ in range(run.pick(150, 5000)):
         segs = G.gen_file(rng, G.GenParams(max_segs=8, p_nometa=0.25, p_keep_list=0.75, max_vals=3))
